@@ -235,6 +235,10 @@ func (g *gen) genTopology() {
 			pp := pick(r, pairs)
 			pc.DUTRole = pp[0]
 			pc.PeerRole = u8p(pp[1])
+			if r.Chance(0.25) {
+				// role configured locally, none advertised by the peer (not strict): RFC 9234 does not apply
+				pc.PeerRole = nil
+			}
 		}
 		pc.Import = g.genPolicy(pick(r, pr.ImportKinds))
 		pc.Export = g.genPolicy(pick(r, pr.ExportKinds))
